@@ -69,3 +69,28 @@ Definition check_filter_update (c : Q * list (Q * Q) * list (option (Q * bool * 
 Definition tag_filter_update (c : Q * list (Q * Q) * list (option (Q * bool * Q * nat))) : nat :=
   let '(rho0, es, expect) := c in
   length (filter (fun o => match o with Some (_, false, _, _) => true | _ => false end) expect).
+
+(* ---- unit penalty: every policy's update() on a history of scripted iterate data ---- *)
+Definition check_penalty (c : policy * pparams * list pdata * list (option (Q * bool * Q * nat))) : bool :=
+  let '(pol, prm, ds, expect) := c in
+  leqb upd_eqb (update_trace pol prm (p_init prm) ds) expect.
+
+(* tag = policy index + 10 * #updates that raised rho + 1000 * #vetoes *)
+Definition pol_index (p : policy) : nat :=
+  match p with Constant => 0 | DualNorm => 1 | DualEquil => 2 | Pareto => 3 | ObjFilter => 4 | LagFilter => 5 end.
+Fixpoint count_raises (r0 : Q) (tr : list (option (Q * bool * Q * nat))) : nat :=
+  match tr with
+  | Some (_, _, r, _) :: tr' => ((if qlt r0 r then 1 else 0) + count_raises r tr')%nat
+  | _ => 0%nat
+  end.
+Definition tag_penalty (c : policy * pparams * list pdata * list (option (Q * bool * Q * nat))) : nat :=
+  let '(pol, prm, ds, expect) := c in
+  let tr := update_trace pol prm (p_init prm) ds in
+  (pol_index pol + 10 * count_raises (pp_rho prm) tr
+   + 1000 * length (filter (fun o => match o with Some (_, false, _, _) => true | _ => false end) tr))%nat.
+
+(* every penalty the model produces is a binary64 number (else the float run was necessarily rounded) *)
+Definition exact_penalty (c : policy * pparams * list pdata * list (option (Q * bool * Q * nat))) : bool :=
+  let '(pol, prm, ds, expect) := c in
+  forallb (fun o => match o with Some (r, _, s, _) => representable r && representable s | None => true end)
+          (update_trace pol prm (p_init prm) ds).
